@@ -215,7 +215,12 @@ PcmSeekPage(PG, LT, BL, vf, target, K) ==
            endoff == LinkEnd(PG, LT, lk)
            PGo == OursOf(PG, L.ser)
            r == Search(PGo, L.doff, endoff, L.first, L.first + L.len, target - total + L.first, K, vf.pos)
-       IN IF r.steps < 0 THEN SeekError(vf, IF r.steps = -1 THEN -999 ELSE OV_EBADLINK)
+       IN \* (repaired, ad70f26) a link without any audio page has one position, its start: the handle is set up there without looking for a page
+          \* (the pinned tree went on to its one-page special case, asked for a page that is not there and failed with the position lost)
+          IF L.doff = endoff /\ target = total /\ L.len = 0
+          THEN LET v1 == IF lk # vf.link \/ vf.rs < STREAMSET THEN [DecodeClear(vf) EXCEPT !.link = lk, !.ser = L.ser, !.rs = STREAMSET] ELSE Restart(BL, vf)
+               IN [ret |-> 0, vf |-> [v1 EXCEPT !.os = OsReset(v1.ser), !.pos = L.doff, !.off = total]]
+          ELSE IF r.steps < 0 THEN SeekError(vf, IF r.steps = -1 THEN -999 ELSE OV_EBADLINK)
           ELSE IF r.best = -1
           THEN \* "the beginning-of-stream case": the first page of the link's stream is fetched again
                IF ~(r.og # 0 /\ r.begin = L.doff) THEN SeekError(vf, OV_EBADLINK)
